@@ -26,7 +26,7 @@ sec = f"""
 
 ## 12. Seeded changes and which checks catch them
 
-{len(rows)} property-breaking changes were written in seven batches by independent sub-agents that saw only the text of
+{len(rows)} property-breaking changes were written in eight batches by independent sub-agents that saw only the text of
 one property and a scratch worktree (nothing from /verif): batch 1 (ids `CnnA`, `CnnB`, all 20 properties, against the
 tree with fixes F1-F15), batch 2 (`CnnC`, `CnnD` for 12 schedule / negotiation properties, against the tree with F1-F24),
 batch 3 (`CnnC`, `CnnD` for the remaining 8, against F1-F26), batch 4 (`CnnE`, `CnnF` for the 8 schedule properties,
@@ -34,7 +34,9 @@ asked for changes that need a specific, deep history to show), batch 5 (`CnnG`, 
 brief; both against F1-F27) and batch 6 (`CnnI`, `CnnJ` (`K`) for all 20: omissions, the wrong one of two similar things,
 error / rare paths, changes outside the obvious function, interactions of two features) and batch 7 (`CnnM`, `CnnN` for all
 20: value-dependent at boundaries, state leaking between instances, order, stale state used by the next exchange, type /
-unit confusion).  Each was confirmed in a scratch worktree (patch applies
+unit confusion) and batch 8 (`CnnO`, `CnnP` for all 20: rarely used option combinations, the state left behind by a
+failed exchange, second occurrences, role asymmetry, changes after which two pyikev2 peers still agree with each other
+but not with RFC 7296).  Each was confirmed in a scratch worktree (patch applies
 on its own, the 176-test baseline still passes, its demonstration exits 0 without and 1 with the change;
 `tools/confirm_seed2.sh`) and is kept as `seeded/<id>/{{patch.diff, demo.py, notes.md, meta.json}}`.
 `tools/run_seeded.py` applies each to a scratch worktree of /repo's HEAD, points the **quick** tier of its property's
@@ -83,7 +85,16 @@ read from the configuration text), C16 (the table as every `dispatch_message` ca
 same loop pass tidies up; rekey-retransmission family), C17 (authentic SK payloads with malformed bodies; cleartext of
 every exchange type to IKE_SAs in every handshake state), C18 (nonce lengths 16..256 and changes confined to the tail),
 C20 (whatever reaches the root handlers while the root logger is at INFO counts, whatever level the record claims).
-C18N is not a violation of C18 as written (see its note) and stays silent on purpose.
+C18N is not a violation of C18 as written (see its note) and stays silent on purpose.  Batch 8 (18 of 40 first missed;
+5 of those already caught by a neighbouring property's check) - C02 (the configured identity presented in other letter
+case), C03 (forgeries from another source address; addresses are part of the snapshot), C05 (an SK payload that announces
+no inner payload but carries some), C07 (cleartext requests of later exchanges to an IKE_SA that has no keys yet + the
+emission rule read off the bytes), C08 / C09 (timer deadlines running out on IKE_SAs that have a request outstanding),
+C10 (mixed-family tunnels; the state at rest - which exposed F29), C11 (the proposal number of the answer), C12 (same
+selectors, other mode), C13 (the schedule a new IKE_SA starts with), C14 (negotiated CHILD_SAs against the kernel's own
+algorithm names, key lengths and lifetimes incl. -1), C15 (events queued behind a moot one), C16 (a DELETE of the IKE_SA
+crossing its rekey), C18 (half-open IKE_SAs that are the victim's own initiations), C19 (identities with capitals), C20
+(every suite in the directed cases; candidate CHILD_SA keys of an IKE_AUTH responder that fails before it answers).
 """
 p = ROOT + '/DESIGN.md'
 s = open(p).read()
